@@ -48,6 +48,7 @@ def bounds(tier):
         )
     return dict(
         argmax_alphabet=["nan", "-inf", -1, 0, 1, "inf"], argmax_maxlen=5,
+        argmax_near_alphabet=["nan", 0, 1e-12, -1e-12, 1, 1.0000001, 0.9999999, -1, -1.0000001], argmax_near_maxlen=4,
         argmax2d_shapes=[[2, 2], [3, 2], [2, 3]], argmax2d_alphabet=["nan", 0, 1],
         batch_max_alphabet=["nan", -1, 0, 0.5, 1], batch_maxlen=5,
         batch_prop_alphabet=["nan", 0, 1, 2], batch2d_shapes=[[2, 2], [2, 3]], real_seeds=8,
